@@ -1,0 +1,80 @@
+//go:build verif
+
+package tree
+
+import "reflect"
+
+// VerifNode is a pointer-free description of one B-tree node for verification harnesses.
+type VerifNode[K any] struct {
+	// Level is the distance from the root (the root is level 0).
+	Level int `json:"level"`
+	// N is the node's key count.
+	N int `json:"n"`
+	// Keys are the node's first N keys.
+	Keys []K `json:"keys"`
+	// Leaf reports that the node has no children.
+	Leaf bool `json:"leaf"`
+	// Children are the indices (into the node list) of children 0..N of an internal node.
+	Children []int `json:"ch"`
+	// ParentOK reports that the node's parent pointer is the node it hangs under (nil for the root).
+	ParentOK bool `json:"parent_ok"`
+	// ClearedOK reports that every key/value slot at index >= N holds the zero value and every
+	// child slot beyond the used ones is nil.
+	ClearedOK bool `json:"cleared_ok"`
+}
+
+// VerifTree is a read-only copy of the structure of a tree.
+type VerifTree[K any] struct {
+	Nodes []VerifNode[K] `json:"nodes"`
+	Size  int            `json:"size"`
+	Gen   int            `json:"gen"`
+}
+
+func verifShape[K any, V any](t *btree[K, V]) VerifTree[K] {
+	out := VerifTree[K]{Size: t.size, Gen: t.gen}
+	var walk func(x *node[K, V], parent *node[K, V], level int) int
+	walk = func(x *node[K, V], parent *node[K, V], level int) int {
+		idx := len(out.Nodes)
+		out.Nodes = append(out.Nodes, VerifNode[K]{})
+		n := int(x.n)
+		vn := VerifNode[K]{Level: level, N: n, Leaf: x.leaf(), ParentOK: x.parent == parent, ClearedOK: true, Children: []int{}}
+		if n < 0 || n > len(x.keys) {
+			n = 0
+			vn.ClearedOK = false
+		}
+		vn.Keys = append([]K{}, x.keys[:n]...)
+		for i := n; i < len(x.keys); i++ {
+			if !reflect.ValueOf(&x.keys[i]).Elem().IsZero() || !reflect.ValueOf(&x.values[i]).Elem().IsZero() {
+				vn.ClearedOK = false
+			}
+		}
+		used := 0
+		if !vn.Leaf {
+			used = n + 1
+		}
+		for i := used; i < len(x.children); i++ {
+			if x.children[i] != nil {
+				vn.ClearedOK = false
+			}
+		}
+		if !vn.Leaf && len(out.Nodes) < 1<<20 {
+			for i := 0; i <= n; i++ {
+				if x.children[i] == nil {
+					vn.Children = append(vn.Children, -1)
+					continue
+				}
+				vn.Children = append(vn.Children, walk(x.children[i], x, level+1))
+			}
+		}
+		out.Nodes[idx] = vn
+		return idx
+	}
+	walk(t.root, nil, 0)
+	return out
+}
+
+// VerifShape returns a read-only copy of the map's node structure.
+func (m Map[K, V]) VerifShape() VerifTree[K] { return verifShape(m.t) }
+
+// VerifShape returns a read-only copy of the set's node structure.
+func (s Set[T]) VerifShape() VerifTree[T] { return verifShape(s.t) }
